@@ -44,10 +44,6 @@ func key(c *out.Call, clause string) string {
 		if out.ForeignStanzaLocal(c) {
 			return "C05/" + entry(c) + "/name:marshaled-foreign-namespace-stanza-local"
 		}
-	case "id", "from", "attrs", "attr-order":
-		if out.NamespacedEmptyID(c) {
-			return "C05/" + entry(c) + "/attrs:namespaced-empty-id"
-		}
 	}
 	return k
 }
@@ -213,7 +209,7 @@ func main() {
 		// function level: the element layer on a bare stanza encoder
 		for i := 0; i < nBare; i++ {
 			so := out.SessOpts{S2S: r.Chance(2, 5)}
-			g := &out.Gen{R: r, NS: nsOf(so)}
+			g := &out.Gen{R: r, NS: nsOf(so), NoBig: true} // payloads above the buffer size matter on a connection only
 			sc := &out.Scenario{Mode: "bare", Opts: so}
 			for k := 1 + r.Intn(3); k > 0; k-- {
 				for {
